@@ -25,6 +25,7 @@ pub const K_DQ: &str = "delimiter_or_quote_in_name";
 pub const K_UNSAFE: &str = "path_unsafe_name";
 pub const K_KIND: &str = "kind_confusion";
 pub const K_PAGING: &str = "manifest_listing_ignores_paging";
+pub const K_DUP: &str = "dual_listing_duplicate_name";
 
 /// class of the names of an operation, if any
 pub fn name_class(op: &Op) -> Option<&'static str> {
@@ -114,6 +115,17 @@ impl Reference {
         }
     }
 
+    /// dual mode: register_table of a root name whose directory exists, at another location
+    pub fn shadows(&self, op: &Op) -> bool {
+        match op {
+            Op::RegisterTable(i, loc) if self.mode == Mode::Dual && i.len() == 1 => {
+                let d = Self::root_dir_name(&i[0]);
+                self.dirs.contains_key(&d) && *loc != d
+            }
+            _ => false,
+        }
+    }
+
     /// does the listing go through the manifest (which ignores page_token and limit)?
     pub fn paging_ignored(&self, op: &Op) -> bool {
         match op {
@@ -142,10 +154,8 @@ impl Reference {
                 if !man || p.is_empty() {
                     return RAns::Err;
                 }
-                let parent = p[..p.len() - 1].to_vec();
                 // every level above must be a namespace
                 let parents_ok = (1..p.len()).all(|i| self.namespaces.contains(&p[..i].to_vec()));
-                let _ = parent;
                 if !parents_ok || self.namespaces.contains(p) || self.tables.contains_key(p) {
                     return RAns::Err;
                 }
@@ -191,9 +201,10 @@ impl Reference {
                     }
                 }
                 if p.is_empty() && self.mode != Mode::Manifest {
+                    // a directory table is hidden when a manifest entry already points at its directory
                     for d in self.dirs.keys() {
                         if let Some(n) = d.strip_suffix(".lance") {
-                            if !n.contains('/') {
+                            if !n.contains('/') && !(man && self.tables.iter().any(|(q, t)| q.len() == 1 && &t.raw == d)) {
                                 names.insert(n.to_string());
                             }
                         }
@@ -242,9 +253,6 @@ impl Reference {
                 let d = self.dirs.entry(raw.clone()).or_default();
                 if with_data {
                     if d.data {
-                        if !d.reserved {
-                            // nothing else there: the entry was not created by us
-                        }
                         return RAns::Err; // a dataset is already there
                     }
                     d.data = true;
@@ -285,8 +293,8 @@ impl Reference {
                 if !parents_ok || self.tables.contains_key(p) || self.namespaces.contains(p) {
                     return RAns::Err;
                 }
-                self.tables.insert(p.clone(), Table { raw: loc.clone(), canon: loc.clone() });
-                RAns::Loc(Some(format!("r:{}", loc)), None)
+                self.tables.insert(p.clone(), Table { raw: lexical_normalise(loc), canon: canon_rel(&lexical_normalise(loc)) });
+                RAns::Loc(Some(format!("r:{}", canon_rel(loc))), None)
             }
             Op::DeregisterTable(p) => {
                 if !man || p.is_empty() {
